@@ -531,6 +531,26 @@ Proof.
   unfold decode_src, pure_src. rewrite (bind_ok _ _ _ _ _ (HT fuel Hf Hok)). reflexivity.
 Qed.
 
+(* an explicit mode switch between values: the first value is read under the rules of mode m, then the
+   caller switches the decoder to mode m' (Constructed::set_mode) and the rest of the input is read under
+   the rules of m' - each part obeys the grammar of the mode in force when it is read *)
+Theorem mode_switch_accepted m m' t d ts ds fuel : enc m t d -> encs m' ts ds ->
+  octets_ok (d ++ ds) = true -> (size t <= fuel)%nat -> (sizes ts <= fuel)%nat ->
+  decode_src m (fun c =>
+      x <- mandatory (process_next_value c None (rd fuel)) ;; let '(v, c1) := x in
+      y <- read_all fuel (mkCons (cst c1) m') ;; let '(vs, c2) := y in ret (v :: vs, c2))
+    (pure_src (d ++ ds) None)
+  = (Ok (t :: ts), pure_src [] None).
+Proof.
+  intros He Hes Hok Hf1 Hf2.
+  pose proof (proj1 (grammar_complete m) t d He fuel (mkCons Unbounded m) ds None Hf1 eq_refl Hok I I) as H1.
+  destruct (proj2 (grammar_complete m') ts ds Hes) as (_ & _ & HT).
+  unfold decode_src, pure_src, mandatory.
+  unfold bind at 1. unfold bind at 1. unfold bind at 1. rewrite H1. cbv iota beta. unfold ret at 1. cbv iota beta.
+  cbn [cst lim_sub]. unfold bind at 1.
+  rewrite (HT fuel Hf2 (octets_ok_app_r _ _ Hok)). reflexivity.
+Qed.
+
 (* ====================================================================== *)
 (* Part 4: soundness - whatever the reader accepts is a string of the       *)
 (* grammar, the tree delivered is the one it encodes                        *)
@@ -889,6 +909,34 @@ Proof.
     apply (accepted_is_wellformed m fuel d ts s' Hok E).
   - intro He. rewrite (wellformed_is_accepted m ts d fuel He Hok); [reflexivity|].
     pose proof (proj2 (enc_size m) ts d He). lia.
+Qed.
+
+(* and conversely: whatever that mixed-mode caller accepts splits into a value of mode m followed by values
+   of mode m' *)
+Theorem mode_switch_sound m m' fuel input t ts s' : octets_ok input = true ->
+  decode_src m (fun c =>
+      x <- mandatory (process_next_value c None (rd fuel)) ;; let '(v, c1) := x in
+      y <- read_all fuel (mkCons (cst c1) m') ;; let '(vs, c2) := y in ret (v :: vs, c2))
+    (pure_src input None) = (Ok (t :: ts), s') ->
+  exists d ds, enc m t d /\ encs m' ts ds /\ input = d ++ ds /\ rem s' = [].
+Proof.
+  intros Hok H. unfold decode_src in H. apply bind_ok_inv in H as ([vs0 c3] & s3 & H & Hx).
+  apply bind_ok_inv in H as ([v c1] & s1 & H1 & H).
+  unfold mandatory in H1. apply bind_ok_inv in H1 as ([o c1'] & s1' & H1 & H1').
+  destruct o as [v'|]; [|discriminate]. injection H1' as <- <- <-.
+  destruct (value_sound fuel (grammar_sound fuel) (mkCons Unbounded m) (pure_src input None) v' c1' s1' eq_refl Hok H1)
+    as (Hn1 & -> & d & Hd & Hrem & Hc).
+  cbn [cst] in H. apply bind_ok_inv in H as ([vs c2] & s2 & H2 & H). injection H as <- <- <-.
+  assert (Hok1 : octets_ok (rem s1') = true).
+  { cbn [rem pure_src] in Hrem. rewrite Hrem in Hok. apply octets_ok_app_r in Hok. exact Hok. }
+  destruct (grammar_sound fuel (mkCons Unbounded m') s1' vs c2 s2 Hn1 Hok1 ltac:(intro E; discriminate E) H2)
+    as (Hn2 & ds & Hds & Hctx).
+  cbn [cst cmd] in Hctx. destruct Hctx as (Hr & -> & [Hc2 _] & He).
+  apply bind_ok_inv in Hx as ([] & s4 & H4 & Hx). unfold ret in Hx. inversion Hx; subst.
+  cbn [cons_exhausted cst] in H4. injection H4 as <-.
+  destruct Hc as [Hc _]. cbn [lim pure_src lim_sub] in Hc. rewrite Hc in Hc2. cbn [lim_sub] in Hc2.
+  destruct He as [He|He]; [|congruence].
+  exists d, ds. cbn [rem pure_src] in Hrem. rewrite He, app_nil_r in Hr. rewrite Hr in Hrem. auto.
 Qed.
 
 (* non-vacuity: a nested BER encoding with an indefinite-length member *)
